@@ -1762,12 +1762,14 @@ pub fn run_sim_cap(case: &PairCase, raw: Option<(Side, Rc<crate::sim_raw::RawSpe
         }
         Some((Side::Server, spec, obs)) => {
             // h2 server against a scripted raw client
-            std::mem::forget(cio);
+            // (the unused end must not be dropped now — that would close the pipes — and must not be leaked either: it
+            // owns both pipes with every byte that crossed them)
+            HELD.with(|h| h.borrow_mut().push(Box::new(cio)));
             exec.spawner().spawn("server-conn", Group::ServerConn, server_main(sio, rc.clone(), ctx.clone(), scmd.clone()));
             exec.spawner().spawn("raw-peer", Group::Peer, crate::sim_raw::peer_task(spec, wire.s2c.clone(), wire.c2s.clone(), true, obs, exec.clock.clone()));
         }
         Some((Side::Client, spec, obs)) => {
-            std::mem::forget(sio);
+            HELD.with(|h| h.borrow_mut().push(Box::new(sio)));
             exec.spawner().spawn("client-main", Group::ClientApp, client_main(cio, rc.clone(), ctx.clone(), ccmd.clone()));
             exec.spawner().spawn("raw-peer", Group::Peer, crate::sim_raw::peer_task(spec, wire.c2s.clone(), wire.s2c.clone(), false, obs, exec.clock.clone()));
         }
